@@ -32,7 +32,10 @@ class Prop:
             "None/True/False x below the target root with before in {None,True,False,0,1,-1,5,-5,each child} / below x / below z, kind=, data_id= "
             "(own, foreign), add(node) inside the source tree below every node (own branch, same parent: refused), copy_to of every node and of "
             "the tree x add_self x deep x before into the other and into the same tree, add(tree) x before x deep x 3 parents, into itself, "
-            "Tree.copy, Node.copy x add_self, the four shortcuts append_child/prepend_child/prepend_sibling/append_sibling with a NODE or a TREE "
+            "Tree.copy, Node.copy x add_self; (b2) the same whole-branch copies on sources REACHED THROUGH A HISTORY (front inserts at the top level "
+            "and below, sort(reverse, deep), same-parent and cross-parent moves incl. below a later-created parent: creation order != current "
+            "order) and on sources with a clone nested inside its own clone's branch followed by later children (depth 2-4); typed targets have "
+            "siblings of mixed kinds; the four shortcuts append_child/prepend_child/prepend_sibling/append_sibling with a NODE or a TREE "
             "argument on every target node and inside the source tree (rendered for the model as the add_child call they stand for); (c) histories: source (exhaustive small, random 4-12 nodes with calc_data_id callbacks) + one "
             "copy operation + a metadata edit on a copied node and on a source node + a random mutation history of 4-25 operations on the "
             "source or on the copy (set_meta/clear_meta/update_meta, set_data, rename, sort, remove x keep_children x with_clones, "
@@ -80,21 +83,32 @@ class Prop:
         if not quick:
             groups += list(M.gen_groups(4, nmin=4, labelings=("mixed",)))
         # deeper shapes (depth 3, two grandchildren; a chain of 4): thorough = all five x everything,
-        # quick = three of them (two grandchildren, a chain of 4, three grandchildren), 'mixed' labeling, every 4th alternative
+        # quick = three of them (two grandchildren, a chain of 4, three grandchildren), 'mixed' labeling, every 6th alternative
         groups += list(M.gen_groups(0, shapes=[M.EXTRA_SHAPES[i] for i in (0, 1, 3)] if quick else M.EXTRA_SHAPES,
                                     labelings=("mixed",), full=not quick))
         for gi, g in enumerate(groups):
             alts = g["alts"]
             if quick and g["n"] > 3:
-                alts = [a for i, a in enumerate(alts) if i % 4 == gi % 4]
+                alts = [a for i, a in enumerate(alts) if i % 6 == gi % 6]
             elif quick and g["n"] == 3:
-                # quick tier: every 5th alternative per group, the offset moves with the group (the union over the
+                # quick tier: every 9th alternative per group, the offset moves with the group (the union over the
                 # 20 groups of 3-node sources still covers every alternative; the thorough tier runs all of them)
-                alts = [a for i, a in enumerate(alts) if i % 5 == gi % 5]
+                alts = [a for i, a in enumerate(alts) if i % 9 == gi % 9]
             for i in range(0, len(alts), CHUNK):
                 yield dict(kind="alts", univ=g["univ"], setup=g["setup"], alts=alts[i:i + CHUNK], label=g["label"])
+        # sources REACHED THROUGH A HISTORY (creation order != current order: front inserts, sort(reverse), moves - also
+        # below a parent created later) and sources with a clone nested inside its own clone's branch followed by later
+        # children; on them every copy of whole branches / of the whole tree, every `before` of add(tree)
+        hist_groups = list(M.gen_groups(3 if quick else 4, nmin=2, labelings=("mixed",), reorders=("A", "B", "C")))
+        hist_groups += list(M.gen_nested_groups(reorders=(None, "B") if quick else (None, "A", "B", "C")))
+        if not quick:
+            hist_groups += list(M.gen_groups(0, shapes=M.EXTRA_SHAPES, labelings=("mixed",), reorders=("A", "B", "C")))
+        for g in hist_groups:
+            for i in range(0, len(g["alts"]), 64):
+                yield dict(kind="alts", univ=g["univ"], setup=g["setup"], alts=g["alts"][i:i + 64], label=g["label"])
+        groups = groups + hist_groups
         # histories on small sources: every k-th copy alternative followed by a mutation tail
-        stride = 41 if quick else 18
+        stride = 61 if quick else 22
         j = 0
         for g in groups:
             if g["n"] < 2:
@@ -108,7 +122,8 @@ class Prop:
         # larger random sources
         for i in range(25 if quick else 300):
             setup, n, typed = M.random_source(rng, 4, 8 if quick else 12)
-            h, _ = M.gen_history(rng, setup, M.random_copy_op(rng, n, typed), rng.randint(6, 14 if quick else 25))
+            h, _ = M.gen_history(rng, setup, M.random_copy_op(rng, n, typed), rng.randint(6, 14 if quick else 25),
+                                 reorder=rng.randint(0, 4))
             yield dict(kind="hist", univ=h["univ"], ops=h["ops"], check_from=len(setup))
 
     def shrink_candidates(self, desc):
